@@ -809,12 +809,57 @@ func numberOrigin(res *origin.Resolver, v ssa.Value, at ssa.Instruction, b *ssa.
 	return false, detail
 }
 
+// returnBuilder: the function that turns an Action into a return instruction: Program.Ret, or - when Ret delegates - the
+// one function of the package that builds a RetConstant whose value comes from an Action parameter.
+func returnBuilder(p *load.Program) *ssa.Function {
+	builds := func(fn *ssa.Function) bool {
+		if fn == nil {
+			return false
+		}
+		hasAction := false
+		for _, prm := range fn.Params {
+			if isNamed(prm.Type(), load.PkgRoot, "Action") {
+				hasAction = true
+			}
+		}
+		if !hasAction {
+			return false
+		}
+		for _, b := range fn.Blocks {
+			for _, in := range b.Instrs {
+				if st, ok := in.(*ssa.Store); ok {
+					if fa, ok := st.Addr.(*ssa.FieldAddr); ok && isNamed(fa.X.Type().Underlying().(*types.Pointer).Elem(), "golang.org/x/net/bpf", "RetConstant") {
+						if _, isK := flow.ConstInt(st.Val); !isK {
+							return true
+						}
+					}
+				}
+			}
+		}
+		return false
+	}
+	ret := p.Func(load.PkgRoot, "Program.Ret")
+	if builds(ret) {
+		return ret
+	}
+	var found []*ssa.Function
+	for _, fn := range p.SrcFuncs(load.PkgRoot) {
+		if builds(fn) {
+			found = append(found, fn)
+		}
+	}
+	if len(found) == 1 {
+		return found[0]
+	}
+	return ret
+}
+
 // checkRetContract: the return builder emits Val = uint32(a) with a = action | EPERM iff action == ActionErrno.
 func checkRetContract(e *Env, m *e1Model, rule string) {
 	r := e.R
 	p := m.p
 	or := e.Oracle()
-	fn := p.Func(load.PkgRoot, "Program.Ret")
+	fn := returnBuilder(p)
 	if fn == nil {
 		r.Unknown(rule, "Program.Ret", "", "not found")
 		return
@@ -837,7 +882,16 @@ func checkRetContract(e *Env, m *e1Model, rule string) {
 		return
 	}
 	v := flow.StripConv(val)
-	action := fn.Params[1]
+	var action *ssa.Parameter
+	for _, prm := range fn.Params {
+		if isNamed(prm.Type(), load.PkgRoot, "Action") {
+			action = prm
+		}
+	}
+	if action == nil {
+		r.Unknown(rule, "Program.Ret/literal", p.Pos(fn.Pos()), "the return builder has no Action parameter")
+		return
+	}
 	good := false
 	detail := "shape not recognised"
 	if ph, ok := v.(*ssa.Phi); ok && len(ph.Edges) == 2 {
@@ -887,7 +941,7 @@ func checkRetLiterals(e *Env, m *e1Model, rule string) {
 	r := e.R
 	p := m.p
 	or := e.Oracle()
-	retFn := p.Func(load.PkgRoot, "Program.Ret")
+	retFn := returnBuilder(p)
 	n := 0
 	for _, fn := range p.SrcFuncs(load.PkgRoot) {
 		for _, b := range fn.Blocks {
